@@ -85,9 +85,21 @@ func init() {
 				return []Term{e}
 			},
 			writes: func(fr *Frame, cc *ssa.CallCommon, ws map[string]bool) {}},
-		"fmt.Sprintf": {reason: "fmt.Sprintf returns some string (content not interpreted)",
+		"fmt.Sprintf": {reason: "fmt.Sprintf returns some string; with a constant format and pointer-free operands it is a deterministic (uninterpreted) function of the format and the operand values",
 			apply: func(fr *Frame, v *ssa.Call, cc *ssa.CallCommon, a []Term, at Term, st *State) []Term {
+				if t, ok := fr.sprintfTerm(cc, a, st); ok {
+					return []Term{t}
+				}
 				return []Term{fr.c.fresh("sprintf", SInt)}
+			}},
+		"crypto/sha256.Sum256": {reason: "sha256.Sum256 is a deterministic (uninterpreted) function of the bytes",
+			apply: func(fr *Frame, v *ssa.Call, cc *ssa.CallCommon, a []Term, at Term, st *State) []Term {
+				return []Term{fr.c.sha256Of(fr.c.bytesContent(st, a[0]))}
+			}},
+		"invoke:ModTime": {reason: "FileInfo.ModTime is some instant determined by the file information",
+			apply: func(fr *Frame, v *ssa.Call, cc *ssa.CallCommon, a []Term, at Term, st *State) []Term {
+				fr.c.declareFun("fiModTime", []Sort{SAny}, SInt)
+				return []Term{Term{app("fiModTime", fr.val(cc.Value)), SInt}}
 			}},
 		"invoke:Error": {reason: "err.Error() is the uninterpreted message of the error value",
 			apply: func(fr *Frame, v *ssa.Call, cc *ssa.CallCommon, a []Term, at Term, st *State) []Term {
@@ -703,4 +715,91 @@ func writesStdoutText(fr *Frame, cc *ssa.CallCommon, ws map[string]bool) {
 	if cell, ok := fr.c.ghostCell(name); ok {
 		ws[cell] = true
 	}
+}
+
+// sha256Of is the uninterpreted digest of a byte content.
+func (c *Enc) sha256Of(content Term) Term {
+	c.declareFun("sha256Of", []Sort{SInt}, SInt)
+	return Term{app("sha256Of", content), SInt}
+}
+
+var tySha256 = types.NewArray(types.Universe.Lookup("byte").Type(), 32)
+
+// sha256Hex is fmt.Sprintf("%x", sha256.Sum256(bytes)) written with the same uninterpreted functions the
+// code's calls are translated to.
+func (c *Enc) sha256Hex(content Term) Term {
+	c.declareFun("ext_fmt.Sprintf_1", []Sort{SInt, SAny}, SInt)
+	boxed := Term{app(c.boxCtor(tySha256), c.sha256Of(content)), SAny}
+	return Term{app("ext_fmt.Sprintf_1", c.strLit("%x"), boxed), SInt}
+}
+
+// pointerFree reports whether values of t contain no references into mutable storage (so that formatting
+// them depends on the value alone).
+func pointerFree(t types.Type) bool {
+	switch u := t.Underlying().(type) {
+	case *types.Basic:
+		return u.Kind() != types.UnsafePointer
+	case *types.Array:
+		return pointerFree(u.Elem())
+	}
+	return false
+}
+
+// sprintfTerm translates fmt.Sprintf(<constant format>, operands...) with pointer-free operands into an
+// uninterpreted function of the format and the boxed operand values.
+func (fr *Frame) sprintfTerm(cc *ssa.CallCommon, a []Term, st *State) (Term, bool) {
+	c := fr.c
+	if len(cc.Args) != 2 {
+		return Term{}, false
+	}
+	if k, ok := cc.Args[0].(*ssa.Const); !ok || k.Value == nil {
+		return Term{}, false
+	}
+	sl, ok := cc.Args[1].(*ssa.Slice)
+	if !ok {
+		return Term{}, false
+	}
+	al, ok := sl.X.(*ssa.Alloc)
+	if !ok {
+		return Term{}, false
+	}
+	arr, ok := al.Type().Underlying().(*types.Pointer).Elem().Underlying().(*types.Array)
+	if !ok || arr.Len() == 0 || arr.Len() > 4 {
+		return Term{}, false
+	}
+	// every stored operand must be a boxed pointer-free value
+	stores := 0
+	for _, r := range *al.Referrers() {
+		switch x := r.(type) {
+		case *ssa.IndexAddr:
+			for _, r2 := range *x.Referrers() {
+				stv, ok := r2.(*ssa.Store)
+				if !ok {
+					return Term{}, false
+				}
+				mi, ok := stv.Val.(*ssa.MakeInterface)
+				if !ok || !pointerFree(mi.X.Type()) {
+					return Term{}, false
+				}
+				stores++
+			}
+		case *ssa.Slice, *ssa.DebugRef:
+		default:
+			return Term{}, false
+		}
+	}
+	if int64(stores) != arr.Len() {
+		return Term{}, false
+	}
+	heap, es := c.elemHeap(arr.Elem())
+	inner := Select(c.get(st, heap), fr.val(al), ArraySort(SInt, es))
+	elems := []Term{a[0]}
+	sorts := []Sort{SInt}
+	for i := int64(0); i < arr.Len(); i++ {
+		elems = append(elems, Select(inner, IntLit(i), es))
+		sorts = append(sorts, es)
+	}
+	fn := fmt.Sprintf("ext_fmt.Sprintf_%d", arr.Len())
+	c.declareFun(fn, sorts, SInt)
+	return Term{app(fn, elems...), SInt}, true
 }
